@@ -35,7 +35,7 @@ typedef struct
 } bimg_t;
 
 static int cfg_type, cfg_role, cfg_fmt, cfg_op, cfg_gk, cfg_variant, cfg_seed;
-static bimg_t L, A, B, D, S;
+static bimg_t L, M[5], D, S;	/* M[1..4]: the long-lived alpha-map candidates A, B, C (wide format), D */
 static uint8_t *D0;		/* initial contents of D */
 static pixman_indexed_t pal[4];		/* [3]: the contents of [1] at another address */
 
@@ -113,9 +113,26 @@ make_bits (bimg_t *b, pixman_format_code_t fmt, int w, int h, vrng_t *rng)
     b->stride = ((w * PIXMAN_FORMAT_BPP (fmt) + 31) / 32) * 4;
     b->bytes = (size_t)b->stride * h;
     b->buf = malloc (b->bytes);
-    if (rng)
+    if (rng && PIXMAN_FORMAT_BPP (fmt) == 128)
+    {
+	/* float channels: halves, quarters, the neighbours of 0.5 in 8 bits, and arbitrary values */
+	static const float fv[8] = { 0.f, 0.5f, 0.25f, 127.f / 255.f, 128.f / 255.f, 1.f, 0.75f, 0.3f };
+	for (i = 0; i < b->bytes / 4; i++)
+	{
+	    uint32_t r = (uint32_t)vrng_next (rng);
+	    ((float *)b->buf)[i] = (r & 1) ? fv[(r >> 1) & 7] : (float)((r >> 8) & 0xffff) / 65535.f;
+	}
+    }
+    else if (rng)
+    {
+	/* half of the bytes are 0x00 / 0x7f / 0x80 / 0xff: values at which 8-bit and float arithmetic round differently */
+	static const uint8_t bv[4] = { 0x00, 0x7f, 0x80, 0xff };
 	for (i = 0; i < b->bytes; i++)
-	    ((uint8_t *)b->buf)[i] = (uint8_t)vrng_next (rng);
+	{
+	    uint32_t r = (uint32_t)vrng_next (rng);
+	    ((uint8_t *)b->buf)[i] = (r & 1) ? bv[(r >> 1) & 3] : (uint8_t)(r >> 8);
+	}
+    }
     b->img = pixman_image_create_bits (fmt, w, h, b->buf, b->stride);
 }
 
@@ -170,6 +187,8 @@ make_subject (bimg_t *x, const bimg_t *like, vrng_t *rng)
 	    clone_bits (x, like);
 	else if (cfg_role == R_DST)
 	    make_bits (x, fmt, 8, 6, rng);
+	else if ((cfg_variant & 0x180) == 0x180)
+	    make_bits (x, fmt, 1, 1, rng);	/* a 1x1 image with a repeat is treated as a solid colour */
 	else
 	    make_bits (x, fmt, 5, 4, rng);
 	/* (an indexed image is unusable without a palette: the creation of one includes the first set_indexed,
@@ -199,7 +218,19 @@ set_transform_v (pixman_image_t *im, int v)
     if (v == 0)
 	return pixman_image_set_transform (im, NULL);
     pixman_transform_init_identity (&t);
-    if (v >= 2)
+    if (v == 19)
+	pixman_transform_init_translate (&t, pixman_int_to_fixed (2), pixman_int_to_fixed (1));
+    else if (v == 20)
+    {
+	pixman_transform_init_scale (&t, -pixman_fixed_1, -pixman_fixed_1);
+	pixman_transform_translate (NULL, &t, pixman_int_to_fixed (4), pixman_int_to_fixed (3));
+    }
+    else if (v == 21)
+    {
+	pixman_transform_init_rotate (&t, 0, pixman_fixed_1);
+	pixman_transform_translate (NULL, &t, pixman_int_to_fixed (3), 0);
+    }
+    else if (v >= 2)
     {
 	const pixman_fixed_t *b = base[cfg_variant % 3];
 	pixman_fixed_t m[9];
@@ -239,6 +270,10 @@ set_filter_v (pixman_image_t *im, int v)
 	return pixman_image_set_filter (im, PIXMAN_FILTER_NEAREST, NULL, 0);
     if (v == 1)
 	return pixman_image_set_filter (im, PIXMAN_FILTER_BILINEAR, NULL, 0);
+    if (v == 16)
+	return pixman_image_set_filter (im, PIXMAN_FILTER_GOOD, NULL, 0);
+    if (v == 17)
+	return pixman_image_set_filter (im, PIXMAN_FILTER_FAST, NULL, 0);
     if (v <= 6 || v == 12 || v == 13)
     {
 	n = 11;
@@ -308,7 +343,7 @@ static const pixman_dither_t dithers[3] = { PIXMAN_DITHER_NONE, PIXMAN_DITHER_OR
 
 /* one setter call on image x (whose alpha-map candidates are a and b); want = wanted values after the call */
 static void
-apply_prop (bimg_t *x, bimg_t *a, bimg_t *b, int p, int v, const int *want)
+apply_prop (bimg_t *x, bimg_t *maps, int p, int v, const int *want)
 {
     pixman_image_t *im = x->img;
     switch (p)
@@ -324,7 +359,7 @@ apply_prop (bimg_t *x, bimg_t *a, bimg_t *b, int p, int v, const int *want)
     {
 	int am = p == P_AM ? v : want[P_AM], ao = p == P_AO ? v : want[P_AO];
 	static const int16_t org[3] = { 0, 1, -1 };	/* x and y over the same values */
-	pixman_image_set_alpha_map (im, am == 0 ? NULL : am == 1 ? a->img : b->img, org[ao % 3], org[(ao / 3) % 3]);
+	pixman_image_set_alpha_map (im, am == 0 ? NULL : maps[am].img, org[ao % 3], org[(ao / 3) % 3]);
 	break;
     }
     case P_CA: pixman_image_set_component_alpha (im, v); break;
@@ -337,7 +372,7 @@ apply_prop (bimg_t *x, bimg_t *a, bimg_t *b, int p, int v, const int *want)
 	pixman_image_set_dither_offset (im, off[v % 3], off[(v / 3) % 3]);
 	break;
     }
-    case P_MA: pixman_image_set_accessors (a->img, v ? rd : NULL, v ? wr : NULL); break;
+    case P_MA: pixman_image_set_accessors (maps[1].img, v ? rd : NULL, v ? wr : NULL); break;
     }
 }
 
@@ -410,20 +445,22 @@ render (const int *want)
     static obs_t ol, of;
     static uint8_t before[1024];
     int nbefore = 0, p;
-    bimg_t F, FA, FB;
-    bimg_t *lmap = want[P_AM] == 1 ? &A : want[P_AM] == 2 ? &B : NULL;
-    bimg_t *fmap = want[P_AM] == 1 ? &FA : want[P_AM] == 2 ? &FB : NULL;
+    bimg_t F, FM[5];
+    bimg_t *lmap = want[P_AM] ? &M[want[P_AM]] : NULL;
+    bimg_t *fmap = want[P_AM] ? &FM[want[P_AM]] : NULL;
+    int k;
 
     /* the freshly created replica: same type, same pixels, each wanted non-default property set once */
     make_subject (&F, L.buf ? &L : NULL, NULL);
-    clone_bits (&FA, &A);
-    clone_bits (&FB, &B);
+    memset (FM, 0, sizeof FM);
+    for (k = 1; k <= 4; k++)
+	clone_bits (&FM[k], &M[k]);
     for (p = 0; p < NPROP; p++)
     {
 	if (p == P_AO && want[P_AM] != 0)
 	    continue;		/* set together with the map */
 	if (want[p] != 0)
-	    apply_prop (&F, &FA, &FB, p, want[p], want);
+	    apply_prop (&F, FM, p, want[p], want);
     }
     if (cfg_role == R_DST)
     {
@@ -444,8 +481,8 @@ render (const int *want)
     log_obs ("f", &of);
     vt_end ();
     drop (&F);
-    drop (&FA);
-    drop (&FB);
+    for (k = 1; k <= 4; k++)
+	drop (&FM[k]);
 }
 
 static void
@@ -468,7 +505,10 @@ init_palettes (void)
 static void
 teardown (void)
 {
-    drop (&L); drop (&A); drop (&B); drop (&D); drop (&S);
+    int k;
+    drop (&L); drop (&D); drop (&S);
+    for (k = 1; k <= 4; k++)
+	drop (&M[k]);
     free (D0);
     D0 = NULL;
 }
@@ -507,8 +547,10 @@ main (int argc, char **argv)
 	    if (cfg_type < 0 || cfg_type > 3 || cfg_role < 0 || cfg_role > 2) return 3;
 	    vrng_seed (&rng, (uint64_t)cfg_seed);
 	    make_subject (&L, NULL, &rng);
-	    make_bits (&A, PIXMAN_a8, 6, 5, &rng);
-	    make_bits (&B, (cfg_variant & 8) ? PIXMAN_a4 : PIXMAN_a8r8g8b8, 5, 4, &rng);
+	    make_bits (&M[1], PIXMAN_a8, 6, 5, &rng);
+	    make_bits (&M[2], (cfg_variant & 8) ? PIXMAN_a4 : PIXMAN_a8r8g8b8, 5, 4, &rng);
+	    make_bits (&M[3], (cfg_variant & 2) ? PIXMAN_a2r10g10b10 : PIXMAN_rgba_float, 5, 4, &rng);
+	    make_bits (&M[4], PIXMAN_a8, 6, 5, &rng);
 	    make_bits (&D, dfmts[(cfg_variant >> 4) & 3], 8, 6, &rng);
 	    D0 = malloc (D.bytes);
 	    memcpy (D0, D.buf, D.bytes);
@@ -517,7 +559,7 @@ main (int argc, char **argv)
 	    if (cfg_type == T_INDEXED)
 	    {
 		want[P_PAL] = 1;
-		apply_prop (&L, &A, &B, P_PAL, 1, want);
+		apply_prop (&L, M, P_PAL, 1, want);
 	    }
 	    cfgv[0] = cfg_fmt; cfgv[1] = cfg_op; cfgv[2] = cfg_gk; cfgv[3] = cfg_variant; cfgv[4] = cfg_seed;
 	    vt_begin ("Config");
@@ -536,7 +578,7 @@ main (int argc, char **argv)
 	    for (i = 0; i < NPROP; i++)
 		if (fscanf (in, "%d", &want[i]) != 1) return 3;
 	    if (p < 0 || p >= NPROP) return 3;
-	    apply_prop (&L, &A, &B, p, v, want);
+	    apply_prop (&L, M, p, v, want);
 	    vt_begin ("Set");
 	    vt_str ("j", pname[p]); vt_int ("v", v); vt_int ("r", r);
 	    vt_end ();
